@@ -22,8 +22,8 @@ OUT = os.environ.get("VERIF_OUT_DIR") or os.path.join(ROOT, "out")
 EVIDENCE = os.environ.get("VERIF_EVIDENCE_DIR") or os.path.join(ROOT, "evidence")
 MAX_SIGS_MINIMISED = 6
 WORKER_WATCHDOG_S = 600
-WATCHDOG = {"quick": 150, "thorough": 600}  # wall-clock backstop per evaluation (hangs inside C code)
-PROBE_TIMEOUT = {"quick": 60, "thorough": 240}
+WATCHDOG = {"quick": 90, "thorough": 600}  # wall-clock backstop per evaluation (hangs inside C code)
+PROBE_TIMEOUT = {"quick": 45, "thorough": 240}
 VIOLATION_STOP = 60
 _INFLIGHT_FD = None
 
@@ -221,6 +221,7 @@ def probe_inflight(prop, tier, seed, stream=""):
         except (OSError, ValueError):
             continue
     os.makedirs(os.path.join(OUT, "probe"), exist_ok=True)
+    jobs = []
     for index, k in sorted(marks):
         rng = prng.rng_for(seed, mod.PROP, tier, index, stream)
         sc = None
@@ -237,11 +238,17 @@ def probe_inflight(prop, tier, seed, stream=""):
         with open(path, "w") as f:
             json.dump({"property": prop, "signature": f"{prop}/T wall-clock-hang", "scenario": sc}, f, default=prng._default)
         cmd = [sys.executable, "-B", os.path.join(ROOT, "dst", "main.py"), "replay", path]
+        jobs.append((index, k, sc, subprocess.Popen(cmd, stdout=subprocess.DEVNULL, stderr=subprocess.DEVNULL, env=dict(os.environ, VERIF_NO_HANG_GUARD="1"))))
+    limit = PROBE_TIMEOUT.get(tier, 120)
+    deadline = time.monotonic() + limit
+    for index, k, sc, proc in jobs:  # all probes run concurrently; each gets the full time limit
         try:
-            subprocess.run(cmd, capture_output=True, text=True, timeout=PROBE_TIMEOUT.get(tier, 120), env=dict(os.environ, VERIF_NO_HANG_GUARD="1"))
+            proc.wait(timeout=max(0.1, deadline - time.monotonic()))
         except subprocess.TimeoutExpired:
-            if getattr(mod, "TERMINATION_IS_PROPERTY", False):
-                found.append({"sig": f"{prop}/T wall-clock-hang", "detail": f"evaluation (run {index}, #{k}) did not finish within {PROBE_TIMEOUT.get(tier, 120)} s of wall-clock time in a fresh interpreter (hang outside the interpreter's step accounting, e.g. inside a regular expression); summary: {str(mod.summarise(sc))[:200]}", "index": index, "scenario": sc})
+            proc.kill()
+            proc.wait()
+            if getattr(mod, "TERMINATION_IS_PROPERTY", False) and not found:  # one replay is enough for the verdict
+                found.append({"sig": f"{prop}/T wall-clock-hang", "detail": f"evaluation (run {index}, #{k}) did not finish within {limit} s of wall-clock time in a fresh interpreter (hang outside the interpreter's step accounting, e.g. inside a regular expression); summary: {str(mod.summarise(sc))[:200]}", "index": index, "scenario": sc})
     for name in os.listdir(d) if os.path.isdir(d) else ():
         try:
             os.unlink(os.path.join(d, name))
